@@ -360,12 +360,22 @@ Definition alias_pair (name : str) (long : option str) : N :=
 Definition entries_digest (es : list sentry) : N :=
   fold_left (fun acc e => (acc + alias_pair (se_name e) (long_of e))%N) es 0%N.
 
+(* ---- positions start at 1 and are written plainly (core.py:93): <SEG>_0, <SEG>_-1, <SEG>_07 and
+   <SEG>_+1 designate nothing -- on an open-ended segment too -- in upper and in lower case ---- *)
+Definition refused (r : result target) : bool :=
+  match r with Err (HL7 EChildNotFound) | Err (HL7 EChildNotValid) => true | _ => false end.
+Definition unplain_probes : list str := [unbs "_0"; unbs "_-1"; unbs "_07"; unbs "_+1"].
+Definition unplain_refused (s : seg) (name : str) : bool :=
+  forallb (fun sfx => refused (seg_getattr t s (name ++ sfx)) && refused (seg_getattr t s (lower name ++ sfx)))
+          unplain_probes.
+
 (* ---- a segment and its field rows ---- *)
 Definition check_segment (p : str * sref) : list str * tally * N :=
   match parent_segment t (fst p) with
   | Ok s =>
       if has_map_st (s_st s) && keys_ok (s_st s)
-      then (check_rows (fst p) (seg_getattr t s) reserved_Segment (entries (s_st s)),
+      then (let rows := check_rows (fst p) (seg_getattr t s) reserved_Segment (entries (s_st s)) in
+            (fst rows ++ (if unplain_refused s (fst p) then [] else [fst p ++ "/unplain-index"]), snd rows),
             entries_digest (entries (s_st s)))
       else ([fst p ++ "/shape"], tally0, 0%N)
   | Err _ => ([fst p], tally0, 0%N)
